@@ -139,6 +139,52 @@ func repsOf(r *fedlab.Request) (map[string]map[string]int, string) {
 	return reps, strings.Join(rest, "&")
 }
 
+// subRequestModuloNull: as subRequest, but a representation may carry null where the fault-free
+// representation of the same entity carries a value.
+func subRequestModuloNull(r, r0 *fedlab.Request) bool {
+	if r.Ident() != r0.Ident() || r.Variables == nil || r0.Variables == nil {
+		return false
+	}
+	_, ar := repsOf(r)
+	_, br := repsOf(r0)
+	if ar != br {
+		return false
+	}
+	for _, m := range r.Variables.Members {
+		if !strings.HasPrefix(m.Key, "representations") || m.Val.Kind != fedlab.JArr {
+			continue
+		}
+		rv0 := r0.Variables.Get(m.Key)
+		if rv0 == nil {
+			return false
+		}
+		for _, rep := range m.Val.Items {
+			found := false
+			for _, rep0 := range rv0.Items {
+				if rep.Kind != fedlab.JObj || rep0.Kind != fedlab.JObj || len(rep.Members) != len(rep0.Members) {
+					continue
+				}
+				same := true
+				for _, f := range rep.Members {
+					v0 := rep0.Get(f.Key)
+					if v0 == nil || !(f.Val.Kind == fedlab.JNull || f.Val.Equal(v0)) {
+						same = false
+						break
+					}
+				}
+				if same {
+					found = true
+					break
+				}
+			}
+			if !found {
+				return false
+			}
+		}
+	}
+	return true
+}
+
 func subRequest(r, r0 *fedlab.Request) bool {
 	if r.Ident() != r0.Ident() {
 		return false
@@ -395,131 +441,112 @@ func (e *env) runFaults(cc *caseCtx, o *outcome, fs []fault) {
 	hk := strings.Join(uniq(hitKinds), ",")
 	rerun := fmt.Sprintf("harness/bin/c07e one -seed %d -index %d -knobs %s -exact 1 -mf %d -sched %d -faults %s -v 1", c.Seed, c.Index, c.Knobs.String(), b2i(cc.opt.MF), b2i(cc.opt.Sched), faultsString(fs))
 	// known root causes present in this run (tools/props/c07e.py matches KNOWN_FINDINGS keys on them)
+	// damagedAlias: the _entities list the entity-count kinds damage (the first non-empty one)
+	damagedAlias := func(r *fedlab.Request) string {
+		if gs, err := e2e.ParseRequest(r.Query); err == nil {
+			for _, g := range gs {
+				if r.Variables != nil && r.Variables.Get(g.RepsVar) != nil && len(r.Variables.Get(g.RepsVar).Items) > 0 {
+					return g.Alias
+				}
+			}
+		}
+		return ""
+	}
+	isMulti := func(r *fedlab.Request) bool {
+		for _, f := range cc.byIdent[r.Ident()] {
+			if f.Kind == "multi" {
+				return true
+			}
+		}
+		return false
+	}
+	singleOriginEntry := func(r *fedlab.Request) bool {
+		alias := damagedAlias(r)
+		for _, f := range cc.byIdent[r.Ident()] {
+			if f.Kind == "multi" {
+				for _, en := range f.Entries {
+					if en.Alias == alias && en.Single {
+						return true
+					}
+				}
+			}
+		}
+		return false
+	}
+	isNumKind := func(k string) bool { return k == e2e.KNaN || k == e2e.KInf || k == e2e.KBadNum }
+	isCountKind := func(k string) bool { return k == e2e.KEntMissing || k == e2e.KEntExtra }
+	// fetchFails: the loader treats the hit as a failure of the fetch (and records it for its dependants);
+	// the exceptions are the recorded findings below and ent_null (a valid "entity not found" answer)
+	fetchFails := func(h hit) bool {
+		switch {
+		case h.kind == e2e.KEntNull, h.kind == e2e.K500Body:
+			return false
+		case isNumKind(h.kind):
+			return !isMulti(h.req)
+		case isCountKind(h.kind):
+			return !(isMulti(h.req) && singleOriginEntry(h.req))
+		}
+		return true
+	}
+	// known root causes present in this run (tools/props/c07e.py matches KNOWN_FINDINGS keys on them)
 	causes := func() []string {
 		var cs []string
-		has := func(k string) bool {
-			for _, h := range hits {
-				if h.kind == k {
-					return true
-				}
-			}
-			return false
-		}
-		if has(e2e.KNaN) || has(e2e.KInf) || has(e2e.KBadNum) {
-			cs = append(cs, "nan-accepted")
-		}
-		if has(e2e.K500Body) {
-			cs = append(cs, "status-ignored-with-data")
-		}
-		// the recorded finding is about EntityFetch (and single-origin entries of a merged fetch): a
-		// BatchEntityFetch does compare the counts
 		for _, h := range hits {
-			if h.kind != e2e.KEntMissing && h.kind != e2e.KEntExtra {
-				continue
-			}
-			for _, f := range cc.byIdent[h.req.Ident()] {
-				if f.Kind == "entity" {
-					cs = append(cs, "entity-count-ignored")
-				}
-				if f.Kind == "multi" {
-					// the damaged list is the first non-empty one
-					alias := ""
-					if gs, err := e2e.ParseRequest(h.req.Query); err == nil {
-						for _, g := range gs {
-							if h.req.Variables != nil && h.req.Variables.Get(g.RepsVar) != nil && len(h.req.Variables.Get(g.RepsVar).Items) > 0 {
-								alias = g.Alias
-								break
-							}
-						}
-					}
-					for _, en := range f.Entries {
-						if en.Alias == alias && en.Single {
-							cs = append(cs, "entity-count-ignored")
-						}
-					}
-				}
+			switch {
+			case h.kind == e2e.K500Body:
+				cs = append(cs, "status-ignored-with-data")
+			case isNumKind(h.kind) && isMulti(h.req):
+				// loader_multi_entity.go parses the shared body of a merged request itself
+				cs = append(cs, "multifetch-nan-accepted")
+			case isCountKind(h.kind) && isMulti(h.req) && singleOriginEntry(h.req):
+				cs = append(cs, "multifetch-single-origin-count-ignored")
 			}
 		}
-		// a representation with a null member that the fault-free request of the same entity has non-null
-		nullSent := false
-		for _, r := range res.Requests {
-			if r.Variables == nil {
-				continue
-			}
-			for _, m := range r.Variables.Members {
-				if !strings.HasPrefix(m.Key, "representations") || m.Val.Kind != fedlab.JArr {
+		// MultiFetch: dependencies and "errored" are kept per MERGED fetch: a merged fetch is skipped as a whole
+		// when one of its union dependencies failed, and one failing entry marks the whole merged fetch as
+		// failed for its dependants -- although members / dependants rest on healthy fetches of the planner's
+		// own (pre-merge) plan only
+		if cc.opt.MF {
+			treeHit, rawHit := map[int]bool{}, map[int]bool{}
+			for _, h := range hits {
+				if !fetchFails(h) {
 					continue
 				}
-				for _, rep := range m.Val.Items {
-					if rep.Kind != fedlab.JObj {
-						continue
-					}
-					for _, f := range rep.Members {
-						if f.Val.Kind != fedlab.JNull {
-							continue
+				for _, f := range cc.byIdent[h.req.Ident()] {
+					treeHit[f.ID] = true
+					if f.Kind == "multi" && e2e.GroupLevel(h.kind) {
+						for _, id := range cc.rawOf(h.req, damagedAlias(h.req)) {
+							rawHit[id] = true
 						}
-						for _, r0 := range cc.base.Requests {
-							if r0.Ident() != r.Ident() || r0.Variables == nil {
-								continue
-							}
-							if rv := r0.Variables.Get(m.Key); rv != nil {
-								for _, rep0 := range rv.Items {
-									if rep0.Kind == fedlab.JObj && rep0.Get("id").Equal(rep.Get("id")) && rep0.Get(f.Key) != nil && rep0.Get(f.Key).Kind != fedlab.JNull {
-										nullSent = true
-									}
-								}
-							}
+					} else if f.Kind == "multi" {
+						for _, id := range f.Merged {
+							rawHit[id] = true
 						}
+					} else {
+						rawHit[f.ID] = true
 					}
 				}
 			}
-		}
-		// the recorded finding is about failures other than transport errors (those are remembered in
-		// erroredFetchIDs and the dependants are skipped)
-		otherThanTransport := false
-		for _, h := range hits {
-			if h.kind != e2e.KTransport {
-				otherThanTransport = true
-			}
-		}
-		if nullSent && otherThanTransport {
-			cs = append(cs, "nullable-requires-null-sent")
-		}
-		// MultiFetch: a merged fetch is skipped as a whole when one of its (union) dependencies is
-		// errored (transport error, or itself skipped), although one of its members depends on healthy fetches only
-		if cc.opt.MF {
-			errored := map[int]bool{}
-			for _, h := range hits {
-				if h.kind == e2e.KTransport {
-					for _, hf := range cc.byIdent[h.req.Ident()] {
-						errored[hf.ID] = true
-					}
-				}
-			}
-			if len(errored) > 0 {
-				errored = cc.dependants(errored)
-				for _, m := range cc.byID {
-					if m.Kind != "multi" || !errored[m.ID] {
+			if len(treeHit) > 0 {
+				treeErr, rawErr := cc.dependants(treeHit), cc.rawDependants(rawHit)
+				for id := range treeErr {
+					f := cc.byID[id]
+					if f == nil {
 						continue
 					}
-					for _, member := range m.Merged {
-						rf := cc.rawByID[member]
-						if rf == nil {
-							continue
-						}
-						healthy := true
-						for _, d := range rf.Deps {
-							if errored[cc.leafOf(d)] {
-								healthy = false
-							}
-						}
-						if healthy {
+					ids := []int{f.ID}
+					if f.Kind == "multi" {
+						ids = f.Merged
+					}
+					for _, rid := range ids {
+						if !rawErr[rid] {
 							cs = append(cs, "multifetch-skip-drops-healthy-entries")
 						}
 					}
 				}
 			}
 		}
+		sort.Strings(cs)
 		return uniq(cs)
 	}
 	viol := func(clause, format string, a ...any) {
@@ -558,12 +585,29 @@ func (e *env) runFaults(cc *caseCtx, o *outcome, fs []fault) {
 		viol("errors_nonempty", "%d hard fault(s) hit a request but the response reports no error; data equals fault-free: %v", hard, res.Data.EqualUnordered(cc.base.Data))
 	}
 	// requests_subset
+	hasEntNull := false
+	for _, h := range hits {
+		if h.kind == e2e.KEntNull {
+			hasEntNull = true
+		}
+	}
 	for _, r := range res.Requests {
 		ok := false
 		for _, r0 := range cc.base.Requests {
 			if subRequest(r, r0) {
 				ok = true
 				break
+			}
+		}
+		if !ok && hasEntNull {
+			// _entities:[null] is a valid "entity not found" answer: a dependant legitimately renders null for a
+			// nullable @requires input it would have read from that entity
+			for _, r0 := range cc.base.Requests {
+				if subRequestModuloNull(r, r0) {
+					ok = true
+					o.Stats["ent_null_null_input_sent"]++
+					break
+				}
 			}
 		}
 		if !ok {
